@@ -530,8 +530,11 @@ func (generator *BuilderGenerator) FromAST(schemas Schemas) []Builder {
 
 	for _, schema := range schemas {
 		schema.Objects.Iterate(func(_ string, object Object) {
+			// a reference that can not be resolved (ex: to a package that was
+			// not loaded) is left as-is by ResolveToType: there is no struct to
+			// derive a builder from.
 			resolvedType := schemas.ResolveToType(object.Type)
-			if !resolvedType.IsAnyOf(KindStruct, KindRef) {
+			if !resolvedType.IsStruct() {
 				return
 			}
 
